@@ -169,9 +169,14 @@ func (p *MemTablePool) GetMemTables() []*MemTable {
 	p.mu.RLock()
 	defer p.mu.RUnlock()
 
+	// Newest first: the active table, then the immutable tables from the most
+	// recently switched one to the oldest (p.immutables is kept oldest first).
+	// Merging iterators give precedence to earlier tables.
 	result := make([]*MemTable, 0, len(p.immutables)+1)
 	result = append(result, p.active)
-	result = append(result, p.immutables...)
+	for i := len(p.immutables) - 1; i >= 0; i-- {
+		result = append(result, p.immutables[i])
+	}
 	return result
 }
 
